@@ -29,6 +29,9 @@ def project():
                           "  end type square_t\ncontains\n  subroutine draw_circle(self)\n    class(circle_t) :: self\n  end subroutine draw_circle\n  subroutine draw_square(self)\n    class(square_t) :: self\n"
                           "  end subroutine draw_square\n  subroutine render()\n    type(circle_t) :: c\n    type(square_t) :: s\n    associate (item => c)\n      associate (item => s)\n        call item%draw()\n"
                           "      end associate\n    end associate\n  end subroutine render\nend module assoc_shapes\n")
+    # two files with one base name in different directories: the file graphs tell them apart
+    f["src/grid/util.f90"] = "module grid_util\n  integer :: gu\nend module grid_util\n"
+    f["src/io/util.f90"] = "module io_util\n  use grid_util\nend module io_util\n"
     f["src/deep.f90"] = ("module deep\n  implicit none\ncontains\n  subroutine outer()\n  contains\n    subroutine inner()\n      use base\n    end subroutine inner\n  end subroutine outer\nend module deep\n"
                          "program deep_main\ncontains\n  subroutine level1()\n  contains\n    subroutine level2()\n      use deep\n    end subroutine level2\n  end subroutine level1\nend program deep_main\n")
     return f
@@ -36,8 +39,8 @@ def project():
 
 # the relations the project-wide graphs are documented to show, for project(): (from, to, style)
 TYPE_EDGES = {("t1", "t0", "solid"), ("t2", "t1", "solid"), ("t2", "t0", "dashed"), ("h1", "holder", "solid"), ("h2", "h1", "solid"), ("holder", "t0", "dashed")}
-FILE_EDGES = {("holders.f90", "types.f90"), ("deep.f90", "uses.f90"), ("deep.f90", "deep.f90")}
-USE_EDGES = {("left", "base"), ("right", "base"), ("top", "left"), ("top", "right"), ("holders", "types")}
+FILE_EDGES = {("holders.f90", "types.f90"), ("deep.f90", "uses.f90"), ("deep.f90", "deep.f90"), ("util.f90~2", "util.f90")}
+USE_EDGES = {("left", "base"), ("right", "base"), ("top", "left"), ("top", "right"), ("holders", "types"), ("io_util", "grid_util")}
 # (a USE statement inside a contained procedure is an edge of the *file* graph - compilation order - not of the module graph, which shows the USE statements of the
 # module's own scope)
 
